@@ -201,6 +201,8 @@ def run_property(prop, tier, seed=0, only=None, jobs=None):
             sources_sha256={os.path.relpath(p, "/repo"): h for p, h in sorted(_collect_sources(results).items())},
             bounds=meta.get("bounds", {}), stubs=meta.get("stubs", []),
             inconclusive_list=[dict(name=r["name"], path=r.get("path"), verdict=r["verdict"]) for r in inconclusive][:50],
+            not_reproduced_list=[dict(name=r["name"], path=r.get("path"), phase=r.get("phase"), model=r.get("model_float"),
+                                      replay=r["replay"].get("detail")) for r in spurious][:50],
             samples=samples,
             exhaustive=False,
         ),
